@@ -126,7 +126,7 @@ impl BinaryDeserializer for FieldPosition {
     fn deserialize(context: &mut DeserializationContext<'_>) -> Result<Self> {
         let byte = context.read_i8()?;
         if byte < 0 {
-            Ok(FieldPosition::new(0, (-byte) as u8))
+            Ok(FieldPosition::new(0, byte.unsigned_abs()))
         } else {
             Ok(FieldPosition::new(byte as u8, 0))
         }
